@@ -207,6 +207,21 @@ theorem waist_position_def (n : Vec3 ℝ) (θ φ len : ℝ) (pol : Pol) :
 
 example : normalizeAngle (0 : ℝ) = 0 := normalizeAngle_zero
 
+/-- hypotheses of `internal_le_external` and `readback_of_residual` are satisfiable -/
+example : (1 / 2 : ℝ) ≤ snellExternal ⟨2, 2, 2⟩ 0 0 0 .ordinary (1 / 2) :=
+  internal_le_external ⟨2, 2, 2⟩ (by norm_num) (by norm_num) (by norm_num) 0 0 0 .ordinary (1 / 2)
+    (by norm_num) (by linarith [Real.pi_gt_three])
+
+example : |Real.arcsin (Real.sin (1 / 2)) - 1 / 2| ≤ 0 / Real.cos 1 :=
+  readback_of_residual (Real.sin (1 / 2)) (1 / 2) 1 0 (by norm_num) (by norm_num)
+    (by linarith [Real.pi_gt_three])
+    (by
+      have h1 : 0 ≤ Real.sin 1 := Real.sin_nonneg_of_nonneg_of_le_pi (by norm_num) (by linarith [Real.pi_gt_three])
+      have h2 : 0 ≤ Real.sin (1 / 2) := Real.sin_nonneg_of_nonneg_of_le_pi (by norm_num) (by linarith [Real.pi_gt_three])
+      linarith)
+    (Real.sin_le_sin_of_le_of_le_pi_div_two (by linarith [Real.pi_gt_three]) (by linarith [Real.pi_gt_three]) (by norm_num))
+    (by simp)
+
 /-- a concrete history: the invariant is non-trivial (the direction really moves) -/
 example : (Beam.run (Beam.new .ordinary 0 0 1e-6 ⟨1e-4, 1e-4⟩)
     [.setAngles 0 0, .setWaist 1 2, .intoPump]).direction = (⟨0, 0, 1⟩ : Vec3 ℝ) :=
